@@ -1414,11 +1414,21 @@ class C17(Prop):
         if rng.random() < 0.3:
             lines += self.polls(rng)
         # forgetting
-        f = rng.choice(["pruneold", "pruneold", "expire-prune", "hand", "hand", "capacity", "other", "roundtrip", "nothing"])
+        f = rng.choice(["pruneold", "pruneold", "expire-prune", "expire-touch-prune", "hand", "hand", "capacity", "shrink",
+                        "other", "roundtrip", "nothing"])
         if f == "pruneold":
             lines.append("pruneold 0")
         elif f == "expire-prune":
             lines += ["expire", f"pruneold {rng.choice([1, 1, 3])}"]
+        elif f == "expire-touch-prune":
+            # old by creation, fresh by access: the age that counts is the one since the threat was recorded
+            lines += ["expire", rng.choice([f"pinspect {a}", f"mrecall {a} {threat[a][6]} {threat[a][7]}", "peek export"]),
+                      f"pruneold {rng.choice([1, 1, 3])}"]
+        elif f == "shrink":
+            # a second threat is remembered, then the capacity is re-assigned below the number stored and only read-only
+            # views are taken: nothing may disappear before the next store
+            lines += [f"show {b} " + " ".join(fp_tokens(threat[b])), f"pflag {b} 1", f"pinspect {b}",
+                      f"mset {rng.choice([1, 1, 0, -1])}"] + self.polls(rng) + [rng.choice(["peek stats", "peek health", "peek cell"])]
         elif f == "hand":
             lines.append(rng.choice(["mforget clear", "mforget assign", "mforget pop0", "mforget dellast", "mforget slice",
                                      f"mforget agent {a}", f"mforget agent {b}"]))
